@@ -110,6 +110,24 @@ theorem C08_cached (ib final : Bytes) (hne : ib ≠ []) (hlen : ib.length ≤ 70
     parseMultipart cachedReader ib fuel s = .ok (ps.map expected) :=
   C08_any_reader cachedContract ib final hne hlen hchars hlast hfinal ps hps hok fuel hfuel s trivial hpend
 
+/-- **C08 with a preamble.**  Text before the first delimiter (RFC 2046 5.1.1: to be ignored) - any lines, empty
+    ones included, none of which is the delimiter line - changes nothing, over every reader that honours the line
+    contract (the in-memory one and the block-caching one in every state). -/
+theorem C08_preamble {R : Type} {rd : Rd R} {pend : R → Bytes} {Ok afterCR : R → Prop}
+    (hc : Contract rd pend Ok afterCR) (ib final : Bytes) (hne : ib ≠ []) (hlen : ib.length ≤ 70)
+    (hchars : ∀ x ∈ ib, 32 ≤ x.toNat ∧ x.toNat ≤ 126) (hlast : ib.getLast? ≠ some 32)
+    (hfinal : final = [CR, LF] ∨ final = []) (ps : List EPart) (hps : ps ≠ []) (hok : ∀ p ∈ ps, PartOK ib p)
+    (pre : List Bytes) (hpre : ∀ l ∈ pre, CR ∉ l ∧ LF ∉ l ∧ strip (l ++ [CR, LF]) ≠ DASH :: DASH :: ib)
+    (fuel : Nat) (hfuel : ∀ p ∈ ps, p.content.length + 3 + ps.length + pre.length < fuel)
+    (r : R) (hr : Ok r) (hpend : pend r = preambleText pre ++ encode ib final ps) :
+    parseMultipart rd ib fuel r = .ok (ps.map expected) :=
+  parse_encode_preambleG hc ib final (BOk_of_boundary ib hne hlen hchars hlast)
+    (validBoundary_of ib hne hlen hchars hlast) hfinal ps hps hok pre hpre fuel hfuel r hr hpend
+
+/-- non-vacuity: the usual MIME preamble followed by an empty line -/
+example : ∀ l ∈ [[84, 104, 105, 115], ([] : Bytes)], CR ∉ l ∧ LF ∉ l ∧ strip (l ++ [CR, LF]) ≠ DASH :: DASH :: [66] := by
+  decide
+
 /-- the state the request starts in: nothing buffered, the declared length is the body's length, the
     stream delivers the body in pieces of any sizes (`script`: short reads) -/
 theorem C08_cached_fresh (ib final : Bytes) (hne : ib ≠ []) (hlen : ib.length ≤ 70)
